@@ -369,7 +369,9 @@ class ViolationGenerator:
         # Apply path-based ignore patterns from config
         violations = _filter_by_ignore(violations, config.ignore)
 
-        # Apply inline ignore directives via IgnoreChecker
+        # Apply inline ignore directives via IgnoreChecker (file contents are cached per run only:
+        # the rule object outlives the run and the files may have been edited since)
+        self._ignore_checker.clear_cache()
         violations = self._ignore_checker.filter_violations(violations)
 
         return violations
